@@ -319,6 +319,7 @@ pub fn run(ctx: &Ctx) -> PropertyReport {
             }
         }
         cases.push(LargeCase::ManyInstances { n: 65_537 });
+        cases.extend(super::c01::more_large_cases(false));
         rep.push(ctx.run_list("large", cases, true, |c: &LargeCase, ctx: &mut CaseCtx| {
             let case = XmlCase { forest: super::c01::large_forest(c), pairing: Pairing::Unknown };
             roundtrip_body(&case, ctx)?;
